@@ -98,6 +98,9 @@ class PusTcUnit(_SpUnit):
         d = bb(r["data"])
         return (r["svc"], r["sub"], r["apid"], r["seq"], r["src"], r["ack"], d, 1, 1, 3, 0, 5 + len(d) + 1, 13 + len(d))
 
+    def observe_decoded(self, o):
+        return self.observe(o) + (by(o.crc16), by(o.pack(recalc_crc=False)))
+
     def crc_protected(self, r):
         return True
 
@@ -182,6 +185,9 @@ class PusTmUnit(_SpUnit):
         ts, d = bb(r["ts"]), bb(r["data"])
         return (r["svc"], r["sub"], r["apid"], r["seq"], r["mc"], r["dest"], r["tref"], r["ver"], ts, d, d, 0, 1, 3,
                 7 + len(ts) + len(d) + 1, 15 + len(ts) + len(d))
+
+    def observe_decoded(self, o):
+        return self.observe(o) + (by(o.crc16), by(o.pack(recalc_crc=False)))
 
     def crc_protected(self, r):
         return True
@@ -268,6 +274,9 @@ class Service17TmUnit(_SpUnit):
     def expected(self, r):
         ts, d = bb(r["ts"]), bb(r["data"])
         return (17, r["sub"], r["apid"], r["seq"], 0, r["dest"], r["tref"], r["ver"], ts, d, 0, 1, 3, 7 + len(ts) + len(d) + 1, 15 + len(ts) + len(d))
+
+    def observe_decoded(self, o):
+        return self.observe(o) + (by(o.pus_tm.crc16), by(o.pus_tm.pack(recalc_crc=False)))
 
     def declared_len(self, o):
         return o.pus_tm.packet_len
@@ -366,6 +375,9 @@ class Service1TmUnit(_SpUnit):
         ts = bb(r["ts"])
         return (1, r["sub"], int.from_bytes(rid, "big"), rid, step, fail, r["apid"], r["seq"], r["dest"], r["tref"], r["ver"], ts, src,
                 0, 1, 3, 7 + len(ts) + len(src) + 1, 15 + len(ts) + len(src))
+
+    def observe_decoded(self, o):
+        return self.observe(o) + (by(o.pus_tm.crc16), by(o.pus_tm.pack(recalc_crc=False)))
 
     def declared_len(self, o):
         return o.pus_tm.packet_len
